@@ -72,16 +72,18 @@ Print Assumptions C14_abf_union_once_before_repair_refuted.
 (* ---- file-based multiple-walker metadynamics: one peer (writer) and one reader; a trace is any
    interleaving of the peer's deposits, of what the reader can see of the peer's hills file (any prefix),
    of the peer's state-file rewrites and restarts (with or without a new output prefix), and of the
-   reader's exchanges, own state-file writes and restarts.  trace_ok = the peer numbers its own steps
-   sensibly (hills later than the state file in place; state files not earlier than their hills). *)
+   reader's exchanges, own state-file writes and restarts.  trace_ok true = the peer numbers its own steps
+   sensibly (hills later than the state file in place; state files not earlier than their hills) and the
+   reader does not exchange between the two halves of a state-file rewrite of the peer (state file renamed,
+   hills file not yet restarted); PWState is the rewrite as one atomic event, PWStateA/PWStateB its halves. *)
 
 (* Whatever the interleaving: the hills the reader holds for the peer are a prefix of the peer's deposited
    sequence (no loss inside, no duplicate, in order); and right after each exchange of the reader with a
    registered peer, everything visible of the peer (state file + complete visible records) is in it. *)
 Theorem C14_meta_prefix :
-  (forall es w m, trace_ok true true es pinit = true ->
+  (forall es w m, trace_ok true true true es pinit = true ->
      prun true true es pinit = (w, Some m) -> prefix (m_cont m) (w_D w)) /\
-  (forall es w om, trace_ok true true (es ++ [RShare]) pinit = true ->
+  (forall es w om, trace_ok true true true (es ++ [RShare]) pinit = true ->
      prun true true (es ++ [RShare]) pinit = (w, om) -> w_reg w = true ->
      exists m, om = Some m /\ prefix (visible w) (m_cont m) /\ prefix (m_cont m) (w_D w) /\ m_sync m = true).
 Proof. exact meta_prefix_both. Qed.
@@ -111,15 +113,23 @@ Print Assumptions C14_meta_own_untouched.
 (* The code before the two repairs of read_replica_files violated C14_meta_prefix:
    (1) read position not reset after rereading a state file; (2) state file rewritten under the same name
    not noticed. *)
-Theorem C14_meta_prefix_before_repair1_refuted : exists es, trace_ok false false es pinit = true /\
+Theorem C14_meta_prefix_before_repair1_refuted : exists es, trace_ok true false false es pinit = true /\
   prefixb (cont_of (prun false false es pinit)) (w_D (fst (prun false false es pinit))) = false.
 Proof. exact meta_old1_refuted. Qed.
 Print Assumptions C14_meta_prefix_before_repair1_refuted.
 
-Theorem C14_meta_prefix_before_repair2_refuted : exists es, trace_ok true false es pinit = true /\
+Theorem C14_meta_prefix_before_repair2_refuted : exists es, trace_ok true true false es pinit = true /\
   prefixb (cont_of (prun true false es pinit)) (w_D (fst (prun true false es pinit))) = false.
 Proof. exact meta_old2_refuted. Qed.
 Print Assumptions C14_meta_prefix_before_repair2_refuted.
+
+(* Without the reader-side premise (trace_ok false: the writer-side conditions only) C14_meta_prefix is false
+   also of the repaired code: a reader that exchanges between the peer's state-file rename and the restart of
+   its hills file later reads the new hills file from the position reached in the old one. *)
+Theorem C14_meta_prefix_exchange_inside_state_rewrite_refuted : exists es, trace_ok false true true es pinit = true /\
+  prefixb (cont_of (prun true true es pinit)) (w_D (fst (prun true true es pinit))) = false.
+Proof. exact meta_midway_refuted. Qed.
+Print Assumptions C14_meta_prefix_exchange_inside_state_rewrite_refuted.
 
 (* ---- non-vacuity of the premises *)
 Example C14_ex_group : GrpLaws Zgrp.
@@ -129,9 +139,17 @@ Example C14_ex_abf : exists w, nth_error (run Zgrp false ([ESample 0%nat 1 5; ES
   /\ wG w 1 = 12 /\ wLoc w 1 = 7 /\ fed_union Zgrp 2 ([ESample 0%nat 1 5; ESample 1%nat 1 7; ERestart 1%nat 1] ++ [EExchange 2]) 1 = 12.
 Proof. eexists. split; [reflexivity|]. vm_compute. auto. Qed.
 
-Example C14_ex_meta : trace_ok true true (meta_w1 ++ [RShare]) pinit = true /\
+Example C14_ex_meta : trace_ok true true true (meta_w1 ++ [RShare]) pinit = true /\
   w_reg (fst (prun true true (meta_w1 ++ [RShare]) pinit)) = true /\
   cont_of (prun true true meta_w1 pinit) = [H 1; H 2; H 3; H 4; H 5].
+Proof. vm_compute. auto. Qed.
+
+(* a trace with a two-stage rewrite during which the reader does not exchange satisfies the premises *)
+Example C14_ex_meta_two_stage :
+  trace_ok true true true [PSetup 0 false; PDeposit (H 1); PVis 1; RShare; PWStateA 1; PVis 0; RWState; PWStateB;
+                           PDeposit (H 2); PVis 1; RShare] pinit = true /\
+  cont_of (prun true true [PSetup 0 false; PDeposit (H 1); PVis 1; RShare; PWStateA 1; PVis 0; RWState; PWStateB;
+                           PDeposit (H 2); PVis 1; RShare] pinit) = [H 1; H 2].
 Proof. vm_compute. auto. Qed.
 
 Example C14_ex_meta_restart : let w := fst (prun true true meta_w2 pinit) in
